@@ -211,6 +211,7 @@ def ROUND(number, digits):
         return error.VALUE
     if isinstance(digits, float):
         digits = int(digits)  # a computed number of digits (4/2) is a float
+    digits = max(-400, min(400, digits))  # beyond the range of a float nothing changes; round() computes 10**digits
     return round(number, digits)
 
 
